@@ -1,9 +1,11 @@
 (* C08 -- StableStore is a durable map, isolated from the log.
-   INTERIM file: the full statements are `seq_refinement_stmt` (Get returns the
-   value of the latest successful Set across any interleaving with log
-   operations and clean reopens) and `crash_refinement_stmt` (across crashes) of
-   Wal/Hist.v, whose proofs are in progress. *)
-From RW Require Import Base.Bytes Base.BytesFacts Fmt.Codec Fmt.Frame Wal.Model Wal.Spec Wal.Hist Wal.BasicFacts.
+   The full statements are `seq_refinement_stmt` (Get returns the value of the
+   latest successful Set across any interleaving with log operations and clean
+   reopens) -- PROVED, see the sequential part at the end of this file -- and
+   `crash_refinement_stmt` (across crashes) of Wal/Hist.v, whose proof is in
+   progress (the fragments below concern that half). *)
+From RW Require Import Base.Bytes Base.BytesFacts Fmt.Codec Fmt.Frame Wal.Model Wal.Spec Wal.Hist Wal.BasicFacts
+  Wal.SeqFactsMain Wal.SeqFactsStable.
 Open Scope N_scope.
 
 Definition C08_full_statement : Prop := seq_refinement_stmt /\ crash_refinement_stmt.
@@ -29,3 +31,81 @@ Theorem C08_crash_keeps_stable_partial :
   forall c d, dk_meta (crash_disk c d) = dk_meta d /\ dk_stable (crash_disk c d) = dk_stable d.
 Proof. exact crash_disk_meta. Qed.
 Print Assumptions C08_crash_keeps_stable_partial.
+
+(* ======================================================================== *)
+(* BEGIN sequential part (branch refine): proved from the sequential refinement
+   theorem (Props/C05.v, Wal/SeqFactsMain.v) and frame lemmas (Wal/SeqFactsStable.v) *)
+
+(* the crash-free half of the full statement is proved *)
+Theorem C08_seq_refines : seq_refinement_stmt.
+Proof. exact seq_refinement. Qed.
+Print Assumptions C08_seq_refines.
+
+(* After any history of log calls, stable calls and clean reopens, Get k returns
+   the value of the last accepted Set k of that history (accepted = BoltDB takes
+   the key: 1..32768 bytes), and the empty value if there was none; setting nil or
+   the empty value unsets the key.  [last_set k os []] scans the history. *)
+Theorem C08_get_last_set :
+  forall c os s0 k, cfg_ok c -> Forall sop_ok os -> short_enough os -> initial c = Some s0 ->
+  fst (step_model c (snd (run_model c s0 os)) (OGetS k)) = RBytes (last_set k os []).
+Proof. exact get_last_set. Qed.
+Print Assumptions C08_get_last_set.
+
+(* GetUint64 after SetUint64 k v returns v; 0 when the key is unset; an error
+   when the stored value is not 8 bytes long *)
+Theorem C08_uint64_roundtrip :
+  forall w e k v, st_closed w = false -> e_fault e = None -> key_ok k = true -> v < two64 ->
+  fst (set_uint64 w k v e) = ROk /\
+  fst (get_uint64 w k (snd (set_uint64 w k v e))) = RVal v.
+Proof. exact uint64_roundtrip. Qed.
+Print Assumptions C08_uint64_roundtrip.
+Theorem C08_uint64_unset :
+  forall w e k, st_closed w = false -> kv_get k (dk_stable (e_disk e)) = [] -> fst (get_uint64 w k e) = RVal 0.
+Proof. exact uint64_unset. Qed.
+Print Assumptions C08_uint64_unset.
+Theorem C08_uint64_bad_size :
+  forall w e k, st_closed w = false -> len (kv_get k (dk_stable (e_disk e))) <> 0 ->
+  len (kv_get k (dk_stable (e_disk e))) <> 8 -> fst (get_uint64 w k e) = RErrOther.
+Proof. exact uint64_bad_size. Qed.
+Print Assumptions C08_uint64_bad_size.
+
+(* log operations never change the stable store: in every state, with or without
+   an injected I/O fault (only the action ASetStable touches dk_stable) *)
+Theorem C08_log_ops_preserve_stable :
+  forall c w e,
+  (forall ls, dk_stable (e_disk (snd (store_logs c w ls e))) = dk_stable (e_disk e)) /\
+  (forall mn mx, dk_stable (e_disk (snd (delete_range c w mn mx e))) = dk_stable (e_disk e)) /\
+  dk_stable (e_disk (snd (rotate c w e))) = dk_stable (e_disk e) /\
+  dk_stable (e_disk (snd (open_wal c e))) = dk_stable (e_disk e).
+Proof. exact log_ops_preserve_stable. Qed.
+Print Assumptions C08_log_ops_preserve_stable.
+
+(* stable operations never change the log: files, metadata and the abstract log *)
+Theorem C08_stable_ops_preserve_log :
+  forall w k v n e,
+  (let e' := snd (set_stable w k v n e) in
+   dk_files (e_disk e') = dk_files (e_disk e) /\ dk_meta (e_disk e') = dk_meta (e_disk e) /\
+   abs w (e_disk e') = abs w (e_disk e)) /\
+  e_disk (snd (get_stable w k e)) = e_disk e.
+Proof. exact stable_ops_preserve_log. Qed.
+Print Assumptions C08_stable_ops_preserve_log.
+
+(* non-vacuity: a history mixing log and stable calls; the last accepted Set wins,
+   a rejected key (empty) is ignored, nil unsets *)
+Example C08_ex_last_set :
+  let os := [OSet [1] [10] false; OStore []; OSet [2] [20] false; OSet [1] [11] false; OSet [] [9] false;
+             OReopen; OSet [2] [] true] in
+  last_set [1] os [] = [11] /\ last_set [2] os [] = [] /\ last_set [] os [] = [] /\
+  (let c := {| c_seg_size := 128; c_codec := 1 |} in
+   match initial c with
+   | Some s0 => fst (step_model c (snd (run_model c s0 os)) (OGetS [1]))
+   | None => RErrOther
+   end) = RBytes [11].
+Proof. vm_compute. repeat split; reflexivity. Qed.
+Example C08_ex_uint64 :
+  let w := {| st_next_id := 0; st_segs := []; st_tail := None; st_rotate := None; st_failed := false;
+              st_closed := false |} in
+  fst (get_uint64 w [7] (snd (set_uint64 w [7] 18446744073709551615 fresh_env))) = RVal 18446744073709551615.
+Proof. vm_compute. reflexivity. Qed.
+(* END sequential part *)
+(* ======================================================================== *)
